@@ -953,6 +953,17 @@ impl World {
 			self.violate("C04", "C04-1 PaymentClaimable at the wrong node", msg);
 			return;
 		}
+		if p.flaw != 0 {
+			let what = match p.flaw {
+				1 => "its payment secret had a bit flipped",
+				2 => "it carried the payment secret of another payment",
+				3 => "it paid less than the amount the recipient registered",
+				_ => "its onion announced a larger total than the parts that were sent",
+			};
+			let msg = format!("node {} was shown pay {} ({} msat) as claimable although {}", n, pay, amount, what);
+			self.violate("C04", "C04-1 PaymentClaimable for a payment that must be refused", msg);
+			return;
+		}
 		if amount < p.total_msat {
 			let msg = format!("node {} pay {}: claimable {} < registered total {}", n, pay, amount, p.total_msat);
 			self.violate("C04", "C04-1 PaymentClaimable for an incomplete payment", msg);
